@@ -171,24 +171,12 @@ func (g *Gen) dest() string {
 	if g.pick("destkind", 2) == 0 {
 		return pool[g.pick("dest", len(pool))]
 	}
+	// parentheses are free: balanced, unbalanced, or balanced in number only
+	// with a ")" before its "(" (the serializer escapes them, or uses angle
+	// brackets, whenever a bare spelling would not be a balanced destination)
 	var sb strings.Builder
-	open := 0
 	for n := 2 + g.pick("destn", 3); n > 0; n-- {
-		u := units[g.pick("destunit", len(units))]
-		// keep parentheses balanced (a bare destination needs that)
-		if u == ")" {
-			if open == 0 {
-				continue
-			}
-			open--
-		}
-		if u == "(" {
-			open++
-		}
-		sb.WriteString(u)
-	}
-	for ; open > 0; open-- {
-		sb.WriteString(")")
+		sb.WriteString(units[g.pick("destunit", len(units))])
 	}
 	return sb.String()
 }
